@@ -248,8 +248,10 @@ def match_cases(tier, rng):
         for g in range(G):
             cx, cy = 100 + rng.randint(0, 60), 100 + rng.randint(0, 60)
             pose = [[cx + rng.randint(-30, 30), cy + rng.randint(-30, 30)] if rng.random() > 0.2 else [] for _ in range(N)]
-            if not any(pose):
+            if not any(pose) and rng.random() < 0.5:
                 pose[0] = [cx, cy]
+            elif rng.random() < 0.06:
+                pose = [[] for _ in range(N)]          # a ground-truth instance with every keypoint missing: still a gt instance
             gts.append(pose)
         prs = []
         for p in range(P):
@@ -424,6 +426,7 @@ def run(tier, seed):
     res.clause("match_empty_gt", sum(1 for c in match if c["G"] == 0))
     res.clause("match_empty_pred", sum(1 for c in match if c["P"] == 0))
     res.clause("match_score_ties", sum(1 for c in match if len(set(c["sc"])) < len(c["sc"])))
+    res.clause("match_frames_with_all_missing_gt_instance", sum(1 for c in match if c.get("src") == "geom" and any(not any(p) for p in c["gts"])))
     res.clause("match_nan_oks", sum(1 for c in match if any(v == -1 for row in c["I"]["ok"] for v in row)))
     res.clause("match_raised", sum(1 for c in match if c["raised"]))
     res.clause("assign_rectangular", sum(1 for c in assign if len(c["C"]) != len(c["C"][0])))
